@@ -24,6 +24,7 @@ def decls():
         out.append(D(t + 'lp', t, F_LIST, None, cbs='p'))
         out.append(D(t + 'n', t, F_NODEFAULT))
     out.append(D('sec', 'sec', F_MULTI | F_TITLE, sub=[D('x', 'int', default=9), D('xs', 'str', default='k')]))
+    out.append(D('usec', 'sec', F_MULTI | F_TITLE | core.F_NO_TITLE_DUPES, sub=[D('x', 'int', default=9), D('xs', 'str', default='k')]))
     out.append(D('msec', 'sec', F_MULTI, sub=[D('y', 'int', default=0)]))
     out.append(D('one', 'sec', 0, sub=[D('z', 'int', default=1)]))
     return out
@@ -133,6 +134,11 @@ def calls_for(d):
             C.append(('rmtsec:absent', ['rmtsec 0 %s %s' % (hx(name), hx('nope'))]))
             C.append(('rmsec:absent-title', ['rmsec 0 %s' % hx(name + '=nope')]))
             C.append(('opt_rmtsec:absent', ['opt_rmtsec %s %s' % (optloc(name), hx('nope'))]))
+            C.append(('addtsec:null-title', ['addtsec 0 %s -' % hx(name)]))
+            C.append(('setopt:null-title', ['setopt 0 %s -' % optloc(name)]))
+            if d.flags & core.F_NO_TITLE_DUPES:
+                C.append(('setopt:duplicate-title', ['setopt 0 %s %s' % (optloc(name), hx('t1'))]))
+                C.append(('parse:duplicate-title', ['parse_buf 0 %s' % hx('%s t2 { x = 77 }\n' % name)]))
         else:
             C.append(('rmsec:absent-index', ['rmsec 0 %s' % hx(name + '=7')]))
             C.append(('rmtsec:untitled', ['rmtsec 0 %s %s' % (hx(name), hx('t1'))]))
@@ -166,7 +172,9 @@ def all_specs():
     for d in DECLS:
         for st in states_for(d):
             for tag, _ in calls_for(d):
-                if st == 'empty' and tag == 'addtsec:existing':
+                if st == 'empty' and tag in ('addtsec:existing', 'addtsec:null-title', 'setopt:null-title', 'setopt:duplicate-title', 'parse:duplicate-title'):
+                    continue
+                if st == 'parsed' and tag == 'parse:duplicate-title':
                     continue
                 yield {'opt': d.name, 'state': st, 'call': tag}
 
